@@ -771,6 +771,12 @@ class FnEmitter:
                 pct = bct[:-2] if bct.endswith(' *') else bct
                 if be.startswith('(*') and ('__ref(' in be or '__ptr(' in be):
                     return '%s.%s' % (be, sanitize(name))
+                try:
+                    opct = self.ct(kids(b)[1])
+                except Exception:
+                    opct = ''
+                if opct.startswith('uptr_') and self.ty.is_oomd_struct(pct):
+                    return '%s->%s' % (be, sanitize(name))
                 if self.ty.kind(pct) == 'handle':
                     return '%s__get_%s(%s)' % (pct, sanitize(name), be)
                 return '%s.%s' % (be, sanitize(name))
@@ -957,7 +963,7 @@ class FnEmitter:
             short = q[len('Oomd::'):]
             if short.startswith('Engine::'):
                 short = short[len('Engine::'):]
-            parts = short.split('::')
+            parts = [x for x in short.split('::') if x]       # anonymous namespaces have an empty name
             cls = '::'.join(q.split('::')[:-1])
             base = '_'.join(sanitize(p) for p in parts[:-1])
             nm = self.opname(parts[-1], len(arg_cts) + (1 if obj_ct else 0))
@@ -1060,8 +1066,7 @@ class FnEmitter:
         cn = self.callee_name(ref, octn, arg_cts)
         if cn == self.cname and not getattr(self, 'is_lambda', False):
             cn += '__rec'       # recursive call: verified against the function's own contract (declared as NAME__rec in the spec)
-        al = [oe] + [self.call_arg(a, ref, i) for i, a in enumerate(args)
-                     if a.get('kind') != 'CXXDefaultArgExpr']
+        al = [oe] + [x for x in (self.call_arg(a, ref, i) for i, a in enumerate(args)) if x is not None]
         return self.ref_result(n, rid, '%s(%s)' % (cn, ', '.join(al)))
 
     def ref_result(self, n, rid, call):
@@ -1076,7 +1081,29 @@ class FnEmitter:
                 return '(*%s)' % call
         return call
 
+    def default_arg(self, ref, i):
+        """text of the i-th parameter's default argument, from any declaration of the callee in the index"""
+        d = self.idx.node.get(ref.get('id'))
+        seen = 0
+        while d is not None and seen < 5:
+            ps = [c for c in kids(d) if c.get('kind') == 'ParmVarDecl']
+            if i < len(ps):
+                init = kids(ps[i])
+                if init:
+                    return self.expr(init[0])
+            d = self.idx.node.get(d.get('previousDecl')) if d.get('previousDecl') else None
+            seen += 1
+        return None
+
     def call_arg(self, a, ref, i):
+        if a.get('kind') == 'CXXDefaultArgExpr':
+            # defaults are spelled out only for callees extracted in this unit (their C definition has
+            # every parameter); boundary stubs model "called with the default" and take no such parameter
+            q = self.idx.qname.get(ref.get('id'))
+            if q in [f['qname'] for f in self.cfg.get('functions', [])] or \
+                    (q and self.cfg.get('default_args') and re.search(self.cfg['default_args'], q)):
+                return self.default_arg(ref, i)
+            return None
         # by-reference out parameter of scalar/value type -> pass address
         decl = self.idx.node.get(ref.get('id'))
         if decl is not None:
@@ -1117,7 +1144,7 @@ class FnEmitter:
                     cn += '__' + sanitize(rct)
                 if name in ARG_TYPED and arg_cts:
                     cn += '__' + '_'.join(sanitize(a) for a in arg_cts)
-            al = [self.call_arg(a, ref, i) for i, a in enumerate(args) if a.get('kind') != 'CXXDefaultArgExpr']
+            al = [x for x in (self.call_arg(a, ref, i) for i, a in enumerate(args)) if x is not None]
             return self.ref_result(n, ref.get('id'), '%s(%s)' % (cn, ', '.join(al)))
         if callee.get('kind') == 'MemberExpr':
             # static member function called through object, or function pointer member
@@ -1167,6 +1194,8 @@ class FnEmitter:
         if k0 == 'scalar' and op in ('++', '--'):
             e0 = self.expr(a0)      # std::atomic<T> modelled as T (sequential semantics within the critical section)
             return '(%s%s)' % (e0, op) if len(args) == 2 else '(%s%s)' % (op, e0)
+        if op == '*' and len(args) == 1 and ct0.startswith('uptr_') and el and self.ty.is_oomd_struct(el):
+            return '(*%s__op_arrow(%s))' % (sanitize(ct0), self.expr(a0))
         if op == '[]' and (ct0.startswith('umap_') or ct0 == 'json_t') and len(args) == 2:
             # map operator[]: inserts when absent and yields an lvalue
             return '(*%s__at_ref(%s, %s))' % (sanitize(ct0), self.expr(a0), self.expr(args[1]))
@@ -1751,16 +1780,19 @@ class FnEmitter:
             raise Unsupported('%s has no body' % self.qname)
         ftype = fn['type']['qualType']
         # return type: text before the first '(' at depth 0
-        depth = 0
+        # 'RET (PARAMS) quals': the parameter list is the last balanced (...) group
         rt = None
-        for i, ch in enumerate(ftype):
-            if ch == '<':
+        j = ftype.rfind(')')
+        depth = 0
+        for i in range(j, -1, -1):
+            ch = ftype[i]
+            if ch == ')':
                 depth += 1
-            elif ch == '>':
+            elif ch == '(':
                 depth -= 1
-            elif ch == '(' and depth == 0:
-                rt = ftype[:i].strip()
-                break
+                if depth == 0:
+                    rt = ftype[:i].strip()
+                    break
         if fn['kind'] in ('CXXConstructorDecl', 'CXXDestructorDecl'):
             self.ret_ct = 'void'
         else:
@@ -2030,6 +2062,16 @@ class Unit:
 
     def resolve_alias(self, t):
         t0 = strip_cvref(t)
+        m = re.match(r'^decltype\((.*)::(\w+)\)$', t0)
+        if m:
+            cls, fld = m.group(1), m.group(2)
+            for q, rec in self.index.records.items():
+                if q.endswith(cls) or q.endswith('::' + cls):
+                    for c in kids(rec):
+                        if c.get('kind') == 'FieldDecl' and c.get('name') == fld:
+                            ft = c['type']
+                            return strip_cvref(ft.get('desugaredQualType') or ft.get('qualType'))
+            raise Unsupported('cannot resolve %s' % t0)
         if t0 in self.ALIASES:
             return self.ALIASES[t0]
         name, args = tmpl(t0)
@@ -2217,7 +2259,7 @@ class Unit:
         short = q[len('Oomd::'):] if q.startswith('Oomd::') else q
         if short.startswith('Engine::'):
             short = short[len('Engine::'):]
-        parts = short.split('::')
+        parts = [x for x in short.split('::') if x]
         base = '_'.join(sanitize(p) for p in parts[:-1])
         em = FnEmitter(self, {'kind': 'none'}, q, '', self.cfg)
         nm = em.opname(parts[-1], 2)
